@@ -47,6 +47,14 @@ def pivot():
     S.append(DSpec(EnumSpec("Pass", [U("A", raw_attrs=['#[strum_discriminants(strum(serialize = "aaa"))]']), U("B", fields=[Field("u8")])],
                             note="per-variant pass-through attribute + derive(EnumString) on the discriminant"),
                    dname="PassD", dderives=["strum::EnumString"], checks={"passthrough"}))
+    S.append(DSpec(EnumSpec("PassDisc", [U("Ok", disc="200", disc_val=200, raw_attrs=['#[strum_discriminants(strum(message = "fine"))]']),
+                                         U("Next"), U("Key", fields=[Field("u8")], disc="40", disc_val=40, raw_attrs=['#[strum_discriminants(strum(serialize = "k"))]']),
+                                         U("Last")], repr="i16",
+                            note="variants carrying BOTH an explicit discriminant and a variant-level #[strum_discriminants(..)] attribute"),
+                   dname="PassDiscK", dderives=["strum::EnumMessage", "strum::EnumString", "strum::EnumIter"], checks={"iter", "layout"}))
+    S.append(DSpec(EnumSpec("ManyDerives", [U("A"), U("B", fields=[Field("u8")])], note="several module-qualified derive paths, split over two attributes"),
+                   dderives=["strum::EnumIter", "strum::EnumCount", "strum::AsRefStr"], extra=["#[strum_discriminants(derive(core::hash::Hash, strum::VariantNames))]"],
+                   checks={"iter", "many"}))
     S.append(DSpec(EnumSpec("Dis", [U("A"), U("H", disabled=True, fields=[Field("u8")]), U("B")], note="a strum(disabled) variant is still mirrored"),
                    dderives=["strum::EnumIter"], checks={"iter"}))
     return S
@@ -161,6 +169,16 @@ def program(ds: DSpec, pname, tier):
                   desc="for every declared variant with symbolic payloads: From<E>, From<&E>, discriminant() agree, name and integer value mirror the enum; checks: %s" % (",".join(sorted(ds.checks)) or "core"),
                   bound={"k": "all %d declared variants" % nv, "payloads": "symbolic ints/bools"}, min_covers=1, functions=fns)]
     api = "pub fn api_names() {\n    let _d: Option<%s> = None;\n" % D
+    # derives requested through strum_discriminants(derive(..)) must exist on the generated type
+    if "iter" in ds.checks:
+        api += "    let _ = <%s as strum::IntoEnumIterator>::iter();\n" % D
+    if "fromstr" in ds.checks or "passthrough" in ds.checks:
+        api += "    let _ = <%s as core::str::FromStr>::from_str(\"\");\n" % D
+    if "ord" in ds.checks:
+        api += "    let _ = %s::%s < %s::%s;\n" % (D, spec.variants[0].ident, D, spec.variants[0].ident)
+    if "many" in ds.checks:
+        api += "    let _: usize = <%s as strum::EnumCount>::COUNT;\n    let _: &str = AsRef::<str>::as_ref(&%s::A);\n" % (D, D)
+        api += "    let _ = <%s as strum::VariantNames>::VARIANTS;\n    fn h<T: core::hash::Hash>() {}\n    h::<%s>();\n" % (D, D)
     if ds.vis and ds.vis != "pub":
         api += "    // restricted visibility: IntoDiscriminant must NOT be required\n"
     api += "}\n"
